@@ -648,6 +648,19 @@ theorem delete_total_respects (S : Schema) (hdet : detB S = true) (hfill : S.fil
   | some st =>
     exact .inr ⟨st, hr, fun htail => fitter_respects S doc f t Slice.empty st hft (by decide) hr htail⟩
 
+/-- **`deleteRange_total`** — `Transform.delete_range(f, t)` as well: the widening arrives at its call
+    of `delete` (no position fails to resolve, no `content_match_at` on invalid content, no
+    `before`/`after` outside the path) and that deletion returns -/
+theorem deleteRange_total (S : Schema) (hdet : detB S = true) (hfill : S.fillersOKB = true) (doc : Node) (f t : Nat)
+    (hv : C01.Valid S doc) (hattrs : S.nodeAttrsOK doc = true)
+    (htop : S.isTextblockO (S.tyOf doc) = false) (hft : f ≤ t) (ht : t ≤ fsize doc.kids) :
+    ∃ r, deleteRangeStep S doc f t = .ok r := by
+  obtain ⟨⟨a, b⟩, hp⟩ := deleteRangeTarget_some S doc f t hv (by omega) ht
+  obtain ⟨h1, h2, h3, _, _⟩ := deleteRange_extends_structurally S doc f t a b hp
+  unfold deleteRangeStep
+  rw [hp]
+  exact delete_total S hdet hfill doc a b hv hattrs htop (by omega) h3
+
 /-- the hypotheses are satisfiable and the Fitter is really reached: `doc(p("ab"), p("cd"))` with
     `doc: "paragraph+"`, `paragraph: "text*"`; deleting `[2, 6)` joins the paragraphs (not a trivial fit) -/
 example :
